@@ -5,6 +5,7 @@ lean/LccModel/Model/MatcherJson.lean), the translation to real matcher objects /
 reference evaluator that uses nothing but Python's own operators.
 
   Val  : None | True | False | ["i", n] | ["f", h] (the float h/2) | ["s", text] | ["l", [Val...]] | ["d", [[key, Val]...]]
+         key : "text" (a str key) | None | True | False | ["i", n] | ["f", h]   -- one dict may mix the types of its keys
   Expr : [constructor, args...]
 """
 import itertools
@@ -27,8 +28,41 @@ def to_py(v):
     if t == "l":
         return [to_py(e) for e in x]
     if t == "d":
-        return {k: to_py(e) for k, e in x}
+        return {key_to_py(k): to_py(e) for k, e in x}
     raise ValueError(v)
+
+
+def key_to_py(k):
+    """dict key syntax -> Python key (a JSON string is a str key, the other scalars use the value syntax)"""
+    return k if isinstance(k, str) else to_py(k)
+
+
+def key_class(k):
+    return "str" if isinstance(k, str) else "None" if k is None else "bool" if isinstance(k, bool) else \
+        {"i": "int", "f": "float", "s": "str"}[k[0]]
+
+
+def dict_key_classes(v):
+    """for every dict inside the value: the set of the types of its keys (used by the distribution report)"""
+    out = []
+    if isinstance(v, list) and len(v) == 2 and v[0] == "l":
+        for e in v[1]:
+            out += dict_key_classes(e)
+    elif isinstance(v, list) and len(v) == 2 and v[0] == "d":
+        out.append(frozenset(key_class(k) for k, _ in v[1]))
+        for _, e in v[1]:
+            out += dict_key_classes(e)
+    return out
+
+
+def key_feature(vals):
+    """'mixed' if some dict among the values has keys of >= 2 types, 'non-str' if some dict has a non-str key, else None"""
+    cs = [c for v in vals for c in dict_key_classes(v)]
+    if any(len(c) >= 2 for c in cs):
+        return "mixed"
+    if any(c - {"str"} for c in cs):
+        return "non-str"
+    return None
 
 
 def num_to_py(n):
@@ -38,6 +72,23 @@ def num_to_py(n):
 STRINGS = ["", "a", "b", "ab", "ba", "abc", "foo", "bar", "a b", 'q"t', "back\\slash", "li\nne", "é", "tab\t", "\x01", "A", "Ab"]
 LONG_STRINGS = ["A" * 48, "B" * 50, "ab" * 30, "x" * 101]
 KEYS = ["a", "b", "k", "foo", 'q"k', ""]
+# the other key types json.dumps accepts; "1"/"null"/"true" are what json.dumps turns 1/None/True into (distinct keys for Python)
+SCALAR_KEYS = [None, True, False, ["i", 0], ["i", 1], ["i", 2], ["i", -1], ["i", 10 ** 20], ["f", 3], ["f", -1], ["f", 2], ["f", 20]]
+MIXED_KEYS = KEYS + ["1", "null", "true"] + SCALAR_KEYS
+
+
+def gen_keys(rng, n):
+    """n (or fewer) dict keys, pairwise distinct for Python (True == 1 == 1.0 is ONE key): 65 % str keys only, else keys of
+    mixed types (str, None, bool, int, float)"""
+    if rng.random() < 0.65:
+        return rng.sample(KEYS, min(n, len(KEYS)))
+    out, seen = [], set()
+    for k in rng.sample(MIXED_KEYS, min(n + 2, len(MIXED_KEYS))):
+        pk = key_to_py(k)
+        if pk not in seen and len(out) < n:
+            seen.add(pk)
+            out.append(k)
+    return out
 
 
 def gen_str(rng, allow_long=True):
@@ -66,9 +117,9 @@ def gen_val(rng, depth=2):
     r = rng.random()
     if depth <= 0 or r < 0.55:
         return gen_scalar(rng)
-    if r < 0.82:
+    if r < 0.79:
         return ["l", [gen_val(rng, depth - 1) for _ in range(rng.choice([0, 1, 2, 2, 3, 4]))]]
-    keys = rng.sample(KEYS, rng.choice([0, 1, 2, 2, 3]))
+    keys = gen_keys(rng, rng.choice([0, 1, 2, 2, 3]))
     return ["d", [[k, gen_val(rng, depth - 1)] for k in keys]]
 
 
@@ -104,7 +155,7 @@ def gen_actual(rng, expr):
     if r < 0.85:
         k = rng.choice([1, 2, 3])
         return ["l", [rng.choice(lits) if rng.random() < 0.8 else gen_scalar(rng) for _ in range(k)]]
-    keys = rng.sample(KEYS, rng.choice([1, 2]))
+    keys = gen_keys(rng, rng.choice([1, 2]))
     return ["d", [[k, rng.choice(lits) if rng.random() < 0.8 else gen_val(rng, 1)] for k in keys]]
 
 
@@ -138,13 +189,13 @@ def gen_num(rng):
 def gen_leaf(rng):
     r = rng.random()
     if r < 0.3:
-        return [rng.choice(VALUE_LEAVES), gen_val(rng, 1)]
+        return [rng.choice(VALUE_LEAVES), gen_val(rng, rng.choice([1, 1, 2]))]
     if r < 0.42:
         return [rng.choice(NULLARY)]
     if r < 0.54:
         return [rng.choice(STRING_LEAVES), gen_str(rng)]
     if r < 0.66:
-        return [rng.choice(LIST_LEAVES), [gen_val(rng, 1) for _ in range(rng.choice([0, 1, 2, 2, 3]))]]
+        return [rng.choice(LIST_LEAVES), [gen_val(rng, rng.choice([1, 1, 2])) for _ in range(rng.choice([0, 1, 2, 2, 3]))]]
     if r < 0.74:
         return ["is_between", gen_num(rng), gen_num(rng)]
     if r < 0.82:
@@ -157,7 +208,7 @@ def gen_leaf(rng):
 def gen_arg(rng, depth):
     """an argument position that goes through is_(): a matcher expression or a plain value"""
     if rng.random() < 0.12:
-        return ["val", gen_val(rng, 1)]
+        return ["val", gen_val(rng, rng.choice([1, 1, 2]))]
     return gen_expr(rng, depth)
 
 
@@ -229,23 +280,45 @@ def shrink_expr(e):
 # the real matcher objects, through the public constructor functions only
 # ------------------------------------------------------------------------------------------------
 
-def to_matcher(e, top=True):
+class Env:
+    """the world a constructor call is evaluated in (stream C17.seq): `store[l]` are the LIVE mutable containers the test keeps a
+    handle on (["ref", l] in value position passes that very object), `objs[i]` the matcher objects built so far (["obj", i] in
+    matcher position passes that very object)"""
+
+    def __init__(self, store, objs=None):
+        self.store, self.objs = store, ([] if objs is None else objs)
+
+
+def is_ref(v):
+    return isinstance(v, list) and len(v) == 2 and v[0] == "ref" and isinstance(v[1], int)
+
+
+def to_matcher(e, top=True, env=None):
     """Expr -> object built by lemoncheesecake.matching's public functions.  A `val` in argument position is passed
-    as the plain value (the API applies is_()); at the top it is `is_(value)`."""
+    as the plain value (the API applies is_()); at the top it is `is_(value)`.  With an `env`, ["ref", l] / ["obj", i] pass the
+    live container / the existing matcher object themselves."""
     import lemoncheesecake.matching as M
 
+    def val(v):
+        return env.store[v[1]] if env is not None and is_ref(v) else to_py(v)
+
+    def vals(vs):
+        return env.store[vs[1]] if env is not None and is_ref(vs) else [to_py(v) for v in vs]
+
     def arg(a):
-        return to_py(a[1]) if a[0] == "val" else to_matcher(a, top=False)
+        return val(a[1]) if a[0] == "val" else to_matcher(a, top=False, env=env)
 
     c = e[0]
+    if c == "obj":
+        return env.objs[e[1]]
     if c == "val":
-        return M.is_(to_py(e[1])) if top else to_py(e[1])
+        return M.is_(val(e[1])) if top else val(e[1])
     if c == "is_":
         return M.is_(arg(e[1]))
     if c == "not_":
         return M.not_(arg(e[1]))
     if c in VALUE_LEAVES:
-        return getattr(M, c)(to_py(e[1]))
+        return getattr(M, c)(val(e[1]))
     if c == "is_between":
         return M.is_between(num_to_py(e[1]), num_to_py(e[2]))
     if c in NULLARY:
@@ -255,7 +328,7 @@ def to_matcher(e, top=True):
     if c in STRING_LEAVES:
         return getattr(M, c)(e[1])
     if c in LIST_LEAVES:
-        return getattr(M, c)([to_py(v) for v in e[1]])
+        return getattr(M, c)(vals(e[1]))
     if c == "has_entry":
         return M.has_entry(list(e[1]), arg(e[2]))
     if c == "has_key":
@@ -269,11 +342,77 @@ def to_matcher(e, top=True):
     if c == "any_of":
         return M.any_of(*[arg(a) for a in e[1]])
     if c == "hide":
-        return to_matcher(e[1], top=False).hide_result_details() if e[1][0] != "val" else M.is_(to_py(e[1][1])).hide_result_details()
+        return (to_matcher(e[1], top=False, env=env) if e[1][0] != "val" else M.is_(val(e[1][1]))).hide_result_details()
     if c == "override":
-        inner = to_matcher(e[2], top=False) if e[2][0] != "val" else M.is_(to_py(e[2][1]))
+        inner = to_matcher(e[2], top=False, env=env) if e[2][0] != "val" else M.is_(val(e[2][1]))
         return inner.override_description(e[1])
     raise ValueError(e)
+
+
+def from_py(x):
+    """Python value of the domain -> JSON syntax (inverse of to_py)"""
+    if x is None or x is True or x is False:
+        return x
+    if isinstance(x, int):
+        return ["i", x]
+    if isinstance(x, float):
+        if (x * 2) != int(x * 2):
+            raise ValueError(x)
+        return ["f", int(x * 2)]
+    if isinstance(x, str):
+        return ["s", x]
+    if isinstance(x, list):
+        return ["l", [from_py(e) for e in x]]
+    if isinstance(x, dict):
+        return ["d", [[k if isinstance(k, str) else from_py(k), from_py(v)] for k, v in x.items()]]
+    raise ValueError(x)
+
+
+def map_expr(e, f_val, f_obj):
+    """rebuild an expression: `f_val` is applied to every value / value-list argument, `f_obj` to every ["obj", i]"""
+    c = e[0]
+    if c == "obj":
+        return f_obj(e)
+    if c == "val" or c in VALUE_LEAVES or c in LIST_LEAVES:
+        return [c, f_val(e[1])]
+    if c in UNARY or c == "hide":
+        return [c, map_expr(e[1], f_val, f_obj)]
+    if c in ("has_entry", "is_type", "override"):
+        return [c, e[1], map_expr(e[2], f_val, f_obj)]
+    if c in ("all_of", "any_of"):
+        return [c, [map_expr(a, f_val, f_obj) for a in e[1]]]
+    return list(e)
+
+
+def inline_objs(e, templates):
+    """the constructor call with every ["obj", i] replaced by the call that built object i (itself already inlined)"""
+    return map_expr(e, lambda v: v, lambda o: ["is_", templates[o[1]]])      # what is passed IS a Matcher: is_() returns it as it is
+
+
+def instantiate(e, store_vals):
+    """the pure expression an (inlined) template denotes for the given contents (JSON syntax) of the store"""
+    def walk(e):
+        c = e[0]
+        if c in LIST_LEAVES:
+            return [c, list(store_vals[e[1][1]][1])] if is_ref(e[1]) else list(e)      # ["l", items] -> items
+        if c == "val" or c in VALUE_LEAVES:
+            return [c, store_vals[e[1][1]] if is_ref(e[1]) else e[1]]
+        if c in UNARY or c == "hide":
+            return [c, walk(e[1])]
+        if c in ("has_entry", "is_type", "override"):
+            return [c, e[1], walk(e[2])]
+        if c in ("all_of", "any_of"):
+            return [c, [walk(a) for a in e[1]]]
+        return list(e)
+
+    return walk(e)
+
+
+def refs_of(e):
+    """the store locations an (inlined) template refers to"""
+    out = set()
+    map_expr(e, lambda v: (out.add(v[1]) if is_ref(v) else None, v)[1], lambda o: o)
+    return out
 
 
 def _type_fn(M, t):
